@@ -95,3 +95,13 @@ Proof.
   - inversion Hl as [|? H1]. inversion H1.
   - apply filter_In in H. apply H.
 Qed.
+
+(** * the tail of the strict wrapper *)
+Lemma error_path_iff : forall res, deliver res = OErrorPath <-> (res = RError \/ res = RForeign).
+Proof. intros res. destruct res; cbn; split; intros H; try discriminate H; auto; destruct H as [H|H]; discriminate H. Qed.
+
+Lemma visited_iff : forall res, deliver res = OVisited <-> res = RValid.
+Proof. intros res. destruct res; cbn; split; intros H; try discriminate H; auto. Qed.
+
+Lemma falling_through_refuted : deliver_falling_through RForeign <> OErrorPath.
+Proof. discriminate. Qed.
